@@ -177,6 +177,15 @@ def run(ctx):
     ctx.cov["samples"] = [" ; ".join(traces[i][1][:14]) + " ..." for i in range(min(2, len(traces)))]
     ctx.cov["scenario_mix"] = [(k, (nt if ctx.thorough() else nq), size) for (k, nq, nt, size) in mix]
     ctx.log("histories=%d ops=%d divergences=%d alarms=%s" % (len(traces), len(all_ops), n_div, viol_hist))
+    # alarms about OTHER properties do not decide this check, but they must not be lost: keep the history
+    if others:
+        odir = os.path.join(lib.ROOT, "build", "other-alarms")
+        os.makedirs(odir, exist_ok=True)
+        for p_, (ti, i, text) in others.items():
+            with open(os.path.join(odir, "%s-seen-by-%s-%s.txt" % (p_, prop, ctx.tier)), "w") as f:
+                f.write("# %s alarm raised while checking %s: op %d: %s\n" % (p_, prop, i, text))
+                f.write("\n".join(traces[ti][1]) + "\n")
+        ctx.cov["other_property_alarm_files"] = sorted(os.listdir(odir))
 
     def monitor_fails(ops):
         _o, ans = run_impl_batch(iexe, ops)
